@@ -1486,6 +1486,9 @@ impl Monitor for C03 {
     fn prop(&self) -> &'static str {
         "C03"
     }
+    fn scalable(&self, g: &str) -> bool {
+        matches!(g, "streams" | "frames" | "random" | "long" | "direct-new")
+    }
     fn gens(&self, tier: Tier) -> Vec<Gen> {
         if tier == Tier::Sanitizer {
             return vec![gen("san-cmds", SAN_CMD_VARIANTS * 16), gen("san-frames", SAN_FRAME_VARIANTS * 16), gen("san-short", SAN_SHORT_VARIANTS * 16)];
